@@ -116,11 +116,8 @@ def run(prog, tier) -> Result:
             return ("__exit__ swallows exceptions", repr(v))
         return None
     cr.run("R12.2", ext, "__exit__ (normal)", setup_ctx(3), judge_exit)
-    # the removal is not conditional on the exception info
-    tests = [n for n in ast.walk(ext.node) if isinstance(n, (ast.If, ast.Try, ast.IfExp))]
-    res.ob("R12.2", "MoneyConverter.__exit__", "unconditional removal", not tests,
-           f"control flow in __exit__: {[type(t).__name__ for t in tests]}", sig="__exit__ removes conditionally",
-           nontrivial=False)
+    # (whether the removal depends on the exception info is decided by the paths above: the arguments are opaque,
+    # so a test on them forks, and a path that does not pop is reported)
 
     # ---- R12.3 generic types
     greg = prog.method("QuantityMeta", "register_converter")
@@ -219,6 +216,6 @@ def run(prog, tier) -> Result:
            sig="converter list leaked", nontrivial=False)
 
     res.require("R12.1", 3)
-    res.require("R12.2", 3)
+    res.require("R12.2", 2)
     res.require("R12.3", 4)
     return res
